@@ -22,6 +22,9 @@ var commonAssumptions = []string{
 // the server closed it and stopped using the transport.
 func connEnded(prop string, i int, cs *connState) []Violation {
 	var v []Violation
+	if ld := cs.rt.lockDead; ld != "" && cs.Started && cs.Closed == 0 {
+		return []Violation{{Prop: prop, Rule: "lock-deadlock", Sig: "lock-deadlock", Detail: fmt.Sprintf("conn %d: blocked forever acquiring a library mutex at %s that is held by a connection which no longer runs", i, ld)}}
+	}
 	if cs.Wedged {
 		v = append(v, Violation{Prop: prop, Rule: "wedge", Detail: fmt.Sprintf("conn %d: server keeps using the transport after it ended (%d operations)", i, cs.AfterEnd), Sig: "wedge"})
 	}
